@@ -383,6 +383,8 @@ def _ladder_for(it, st, seq, fr, n, notes, order=None):
     flo, fhi, fholes, _ = interval_of_facts(list(it.facts.items()), n)
     if isinstance(n, Term) and n.op == "mod" and isinstance(n.args[1], int) and n.args[1] > 0:
         flo = max(flo, 0)                 # a residue
+    if order is None:
+        flo = max(flo, 0)                 # the curve modules' statement is about n >= 0 (negative scalars are outside it)
     while flo in fholes:
         flo += 1
     # n >> (bit_length(n) - 1) = 1 for n >= 1;  n >> bit_length(n) = 0 for n >= 0
